@@ -32,8 +32,10 @@ CONSTANTS
   Lean        \* TRUE: every parameter domain is reduced to boundary / interior representatives
               \* (used for exhaustive enumeration of programs of depth >= 2)
 
-VARIABLES env, prog
-vars == <<env, prog>>
+VARIABLES env,   \* handle -> current denotation (in-place actions replace an entry)
+          prog,  \* the actions so far
+          vals   \* vals[k]: the denotation action k produced (of the handle it created, or of its in-place target)
+vars == <<env, prog, vals>>
 
 Pick(S) == IF Sim THEN {RandomElement(S)} ELSE S
 Coin(n) == IF Sim THEN RandomElement(1..n) = 1 ELSE FALSE    \* TRUE with probability 1/n (sim only)
@@ -95,10 +97,11 @@ SrcAct(shape, kind, salt) ==
 \* Simulation starts from the empty program (TLC computes initial states only once)
 \* and picks 1-3 sources in its first step; exhaustive runs start from each source.
 Init ==
-  IF Sim THEN env = <<>> /\ prog = <<>>
+  IF Sim THEN env = <<>> /\ prog = <<>> /\ vals = <<>>
   ELSE \E sh \in SrcShapes : \E k \in SrcKinds :
          /\ env = <<MkSrc(sh, k, 0)>>
-         /\ prog = <<SrcAct(sh, k, 0)>>
+         /\ vals = <<MkSrc(sh, k, 0)>>
+         /\ prog = <<SrcAct(sh, k, 0) @@ [out |-> 1]>>
 
 Start ==
   /\ Sim /\ env = <<>>
@@ -106,16 +109,21 @@ Start ==
        \E shs \in {[j \in 1..n |-> RandomElement(SrcShapes)]} :
          \E ks \in {[j \in 1..n |-> RandomElement(SrcKinds)]} :
            /\ env' = [j \in 1..n |-> MkSrc(shs[j], ks[j], j - 1)]
-           /\ prog' = [j \in 1..n |-> SrcAct(shs[j], ks[j], j - 1)]
+           /\ vals' = [j \in 1..n |-> MkSrc(shs[j], ks[j], j - 1)]
+           /\ prog' = [j \in 1..n |-> SrcAct(shs[j], ks[j], j - 1) @@ [out |-> j]]
 
 NActs == Cardinality({j \in 1..Len(prog) : prog[j].a # "Source"})
+NumHandles == Len(env)
 CanStep == env # <<>> /\ NActs < MaxLen
 Allowed(a) == IF NActs = 0 \/ Acts2 = {} THEN a \in Acts ELSE a \in Acts2
 
 Operands(act) ==
   (IF "x" \in DOMAIN act THEN {act.x} ELSE {}) \cup (IF "y" \in DOMAIN act THEN {act.y} ELSE {})
   \cup (IF "c" \in DOMAIN act THEN {act.c} ELSE {}) \cup (IF "xs" \in DOMAIN act THEN {act.xs[j] : j \in 1..Len(act.xs)} ELSE {})
-PairOK(act) == \A h \in Operands(act) \ {0} : (prog[h].a \o ">" \o act.a) \notin ExclPairs /\ (prog[h].a \o ">*") \notin ExclPairs
+\* the action that created handle h (in-place actions do not create handles)
+IsInplace(act) == "inplace" \in DOMAIN act
+ProdAct(h) == prog[CHOOSE j \in 1..Len(prog) : prog[j].out = h /\ ~IsInplace(prog[j])].a
+PairOK(act) == \A h \in Operands(act) \ {0} : (ProdAct(h) \o ">" \o act.a) \notin ExclPairs /\ (ProdAct(h) \o ">*") \notin ExclPairs
 \* lean (exhaustive deep) corpora: every action after the first consumes the most recent collection, so
 \* a program of depth n is a genuine n-fold composition (operations on older handles are programs of the
 \* shallower corpora); binary operations may still combine it with any older collection (sharing)
@@ -123,7 +131,14 @@ ChainOK(act) == ~Lean \/ Sim \/ NActs = 0 \/ Len(env) \in Operands(act)
 Push(act, val) ==
   /\ PairOK(act) /\ ChainOK(act)
   /\ env' = Append(env, val)
+  /\ vals' = Append(vals, val)
   /\ prog' = Append(prog, act @@ [out |-> Len(env) + 1])
+\* in-place action on handle x: only env[x] changes (C11: every other collection keeps its denotation)
+InPlace(act, x, val) ==
+  /\ PairOK(act)
+  /\ env' = [env EXCEPT ![x] = val]
+  /\ vals' = Append(vals, val)
+  /\ prog' = Append(prog, act @@ [out |-> x, inplace |-> TRUE])
 
 (***************************************************************************)
 (* Parameter domains                                                       *)
@@ -380,8 +395,111 @@ TopKAct ==
          /\ Abs(kk) <= env[x].shape[Rank(env[x])]
          /\ Push([a |-> "TopK", x |-> x, k |-> kk], TopK(env[x], kk))
 
+
+(***************************************************************************)
+(* Rechunk by specification (C14): the value never changes; the chunks are *)
+(* what normalizing the specification gives (validated from the recorded   *)
+(* layouts by Planner.RechunkSpecVerdict, not predicted here).             *)
+(***************************************************************************)
+AxisSpecs(n) == {[k |-> "int", v |-> v] : v \in L(1..(n + 1), {1, 2, Max2(n - 1, 1), n + 1})}
+                \cup {[k |-> "full"], [k |-> "keep"], [k |-> "auto"]}
+RechunkSpecAct ==
+  /\ Allowed("RechunkSpec") /\ CanStep
+  /\ \E x \in Pick({h \in Live : Rank(env[h]) >= 1 /\ Rank(env[h]) <= 3 /\ \A a \in 1..Rank(env[h]) : env[h].shape[a] >= 1}) :
+       \E form \in Pick({"tuple", "dict", "scalar"}) : \E bal \in Pick({FALSE, TRUE}) :
+         LET r == Rank(env[x]) IN
+         \/ /\ form = "scalar"
+            /\ \E sp \in Pick(UNION {AxisSpecs(env[x].shape[a]) : a \in 1..r} \ {[k |-> "keep"]}) :
+                 /\ (bal => sp.k = "int")
+                 /\ Push([a |-> "RechunkSpec", x |-> x, form |-> form, balance |-> bal, spec |-> [a \in 1..r |-> sp]], env[x])
+         \/ /\ form \in {"tuple", "dict"}
+            /\ \E sp \in Pick({q \in [1..r -> UNION {AxisSpecs(env[x].shape[a]) : a \in 1..r}] :
+                                  \A a \in 1..r : q[a] \in AxisSpecs(env[x].shape[a])}) :
+                 /\ (bal => \A a \in 1..r : sp[a].k \in {"int", "keep"})
+                 /\ (Lean => Cardinality({a \in 1..r : sp[a].k # "keep"}) <= 2)
+                 /\ Push([a |-> "RechunkSpec", x |-> x, form |-> form, balance |-> bal, spec |-> sp], env[x])
+
+(***************************************************************************)
+(* map_blocks with a function that uses block_info / block_id (C20): the   *)
+(* block function adds, to every element, its global position along `axis` *)
+(* computed from the array-location it was told, so a wrong block_info     *)
+(* changes the values.  Denotation: A + GlobalIndex(axis) (kind "i"/"f").  *)
+(***************************************************************************)
+AddGlobalIndex(A, ax) ==
+  LET k == IF A.kind = "b" THEN "i" ELSE A.kind
+  IN Build(A.shape, k, LAMBDA o : VAdd(ToKind(At(A, o), A.kind, k), IF k = "f" THEN Q(o[ax]) ELSE o[ax], k))
+MapBlocksAct ==
+  /\ Allowed("MapBlocks") /\ CanStep
+  /\ \E x \in Pick({h \in Live : Rank(env[h]) >= 1 /\ Rank(env[h]) <= 3}) : \E ax \in Pick(1..Rank(env[x])) :
+       \E use \in Pick({"block_info", "block_id", "both"}) :
+         Push([a |-> "MapBlocks", x |-> x, axis |-> ax, use |-> use], AddGlobalIndex(env[x], ax))
+
+(***************************************************************************)
+(* In-place operations (C11)                                               *)
+(***************************************************************************)
+SetValDom(kind) == IF kind = "f" THEN {<<-7, 2>>} ELSE IF kind = "b" THEN {1} ELSE {-5}
+SetItemAct ==
+  /\ Allowed("SetItem") /\ CanStep
+  /\ \E x \in Pick({h \in Live : Rank(env[h]) >= 1 /\ Rank(env[h]) <= 3 /\ Size(env[h].shape) >= 1}) :
+       \E idx \in IdxTuples(env[x].shape) :
+         /\ IndexOK(env[x].shape, idx) /\ \A j \in 1..Len(idx) : ~IsNoneIx(idx[j])
+         /\ \/ \E sv \in Pick(SetValDom(env[x].kind)) :      \* scalar value
+                 InPlace([a |-> "SetItem", x |-> x, idx |-> idx, vkind |-> "scalar", scalar |-> sv, y |-> 0],
+                         x, SetItem(env[x], idx, Scalar(sv, env[x].kind)))
+            \/ \E y \in Pick({h \in Live \ {x} :              \* value: another collection that broadcasts to the region
+                                  /\ env[h].kind = env[x].kind
+                                  /\ LET reg == BasicIndex(env[x], idx).shape IN
+                                       /\ BroadcastCompatible(env[h].shape, reg)
+                                       /\ BroadcastShapes(env[h].shape, reg) = reg}) :
+                 InPlace([a |-> "SetItem", x |-> x, idx |-> idx, vkind |-> "array", scalar |-> 0, y |-> y],
+                         x, SetItem(env[x], idx, env[y]))
+
+\* x[mask] = scalar with a boolean mask derived from x itself (x > t) or from another bool collection
+MaskSetAct ==
+  /\ Allowed("MaskSet") /\ CanStep
+  /\ \E x \in Pick({h \in Live : Rank(env[h]) >= 1 /\ env[h].kind # "b" /\ Size(env[h].shape) >= 1}) :
+       \E t \in Pick({1, 4}) : \E sv \in Pick(SetValDom(env[x].kind)) : \E lib \in Pick({"np", "da"}) :
+         LET M == Binary("lt", Scalar(IF env[x].kind = "f" THEN Q(t) ELSE t, env[x].kind), env[x])      \* t < x
+         IN /\ (lib = "np" => Rank(env[x]) = 1)      \* N-d NumPy masks are refused at assignment time (a decline)
+            /\ InPlace([a |-> "MaskSet", x |-> x, thresh |-> t, scalar |-> sv, masklib |-> lib], x,
+                    Where(M, Scalar(sv, env[x].kind), env[x]))
+
+\* ufunc with out=x:  add(x, y, out=x)  (y a scalar or another collection of the same shape and kind)
+OutUfuncAct ==
+  /\ Allowed("OutUfunc") /\ CanStep
+  /\ \E x \in Pick({h \in Live : Rank(env[h]) >= 1 /\ env[h].kind # "b"}) : \E op \in Pick({"add", "mul"}) :
+       \/ InPlace([a |-> "OutUfunc", x |-> x, op |-> op, y |-> 0, scalar |-> 2], x,
+                  Binary(op, env[x], Scalar(IF env[x].kind = "f" THEN Q(2) ELSE 2, env[x].kind)))
+       \/ \E y \in Pick({h \in Live \ {x} : env[h].shape = env[x].shape /\ env[h].kind = env[x].kind}) :
+            InPlace([a |-> "OutUfunc", x |-> x, op |-> op, y |-> y, scalar |-> 0], x, Binary(op, env[x], env[y]))
+
+(***************************************************************************)
+(* Unknown chunk sizes (C28): boolean-mask selection gives a 1-D array of  *)
+(* data-dependent length; compute_chunk_sizes() resolves the sizes in      *)
+(* place and never changes the value.                                      *)
+(***************************************************************************)
+MaskSelectAct ==
+  /\ Allowed("MaskSelect") /\ CanStep
+  /\ \E x \in Pick({h \in Live : Rank(env[h]) >= 1 /\ Rank(env[h]) <= 2 /\ env[h].kind # "b"}) :
+       \E t \in Pick({0, 2, 5, 100}) :
+         LET M == Binary("lt", Scalar(IF env[x].kind = "f" THEN Q(t) ELSE t, env[x].kind), env[x])
+         IN Push([a |-> "MaskSelect", x |-> x, thresh |-> t], MaskSelect(env[x], M))
+ComputeChunkSizesAct ==
+  /\ Allowed("ComputeChunkSizes") /\ CanStep
+  /\ \E x \in Pick({h \in Live : \E j \in 1..Len(prog) : prog[j].out = h /\ prog[j].a = "MaskSelect"}) :
+       InPlace([a |-> "ComputeChunkSizes", x |-> x], x, env[x])
+
+(***************************************************************************)
+(* Entry points that return a collection (C05): the denotation is kept.    *)
+(***************************************************************************)
+PersistAct ==
+  /\ Allowed("Persist") /\ CanStep
+  /\ \E x \in Pick(Live) : \E e \in Pick({"x.persist", "dask.persist", "dask.optimize", "x.optimize"}) :
+       Push([a |-> "Persist", x |-> x, entry |-> e], env[x])
+
 Next ==
   \/ Start
+  \/ RechunkSpecAct \/ MapBlocksAct \/ SetItemAct \/ MaskSetAct \/ OutUfuncAct \/ MaskSelectAct \/ ComputeChunkSizesAct \/ PersistAct
   \/ Index \/ Elemwise \/ UnaryAct \/ AsTypeAct \/ TransposeAct \/ ReshapeAct \/ ExpandSqueeze \/ FlipRoll
   \/ ConcatStack \/ RechunkAct \/ ReduceAct \/ ArgReduce \/ CumulativeAct \/ DiffAct \/ WhereAct \/ TakeAct
   \/ BroadcastAct \/ WindowAct \/ WindowReduce \/ DotAct \/ PadRepeat \/ TopKAct
@@ -393,10 +511,11 @@ Spec == Init /\ [][Next]_vars
 (***************************************************************************)
 Emit ==
   (NActs >= 1 /\ (EmitAll \/ NActs = MaxLen)) =>
-     PrintT(ToJson([prog |-> prog, env |-> env]))
+     PrintT(ToJson([prog |-> prog, env |-> vals]))
 
 \* Type / sanity invariant of the specification itself: every denotation is
 \* well-formed (data length = product of shape)
 WellFormed ==
-  \A h \in 1..Len(env) : IsErr(env[h]) \/ Len(env[h].data) = Size(env[h].shape)
+  /\ \A h \in 1..Len(env) : IsErr(env[h]) \/ Len(env[h].data) = Size(env[h].shape)
+  /\ Len(vals) = Len(prog)
 =============================================================================
